@@ -172,6 +172,18 @@ func b01(s string) (bool, bool) {
 	return false, false
 }
 
+func parseIdx(s string) (*updater.Index, bool) {
+	switch s {
+	case "nil":
+		return nil, true
+	case "auto":
+		return &updater.Index{AutoDownload: true}, true
+	case "noauto":
+		return &updater.Index{}, true
+	}
+	return nil, false
+}
+
 func cmpStr(a, b *semver.Version) string {
 	switch c := a.Compare(b); {
 	case c < 0:
@@ -213,17 +225,8 @@ func (e *exec) Do(line string) string {
 		a, ok1 := b01(f[3])
 		c, ok2 := b01(f[4])
 		p, ok3 := b01(f[5])
-		var idx *updater.Index
-		switch f[6] {
-		case "nil":
-		case "auto":
-			idx = &updater.Index{AutoDownload: true}
-		case "noauto":
-			idx = &updater.Index{}
-		default:
-			return "bad-op"
-		}
-		if !ok1 || !ok2 || !ok3 {
+		idx, ok4 := parseIdx(f[6])
+		if !ok1 || !ok2 || !ok3 || !ok4 {
 			return "bad-op"
 		}
 		if a {
@@ -235,6 +238,59 @@ func (e *exec) Do(line string) string {
 		if err := e.reg.AddResource(id, ver, idx, a, c, p); err != nil {
 			return "err parse"
 		}
+		return "ok"
+	case f[0] == "addv" && len(f) == 6:
+		// Resource.AddVersion called directly on an existing resource (its index stays)
+		id, ver := tok(f[1]), tok(f[2])
+		a, ok1 := b01(f[3])
+		c, ok2 := b01(f[4])
+		p, ok3 := b01(f[5])
+		if !ok1 || !ok2 || !ok3 {
+			return "bad-op"
+		}
+		res := e.reg.VerifResource(id)
+		if res == nil {
+			return "err notfound"
+		}
+		if a {
+			if sv, err := semver.NewVersion(ver); err == nil {
+				touchFile(filepath.Join(e.dir, filepath.FromSlash(refVersionedPath(id, sv.String()))))
+			}
+		}
+		if err := res.AddVersion(ver, a, c, p); err != nil {
+			return "err parse"
+		}
+		return "ok"
+	case f[0] == "addmany" && len(f) >= 5:
+		// AddResources: one index and one set of flags for a map identifier -> version (what loading an index file does)
+		a, ok1 := b01(f[1])
+		c, ok2 := b01(f[2])
+		p, ok3 := b01(f[3])
+		idx, ok4 := parseIdx(f[4])
+		if !ok1 || !ok2 || !ok3 || !ok4 {
+			return "bad-op"
+		}
+		m := map[string]string{}
+		for _, it := range f[5:] {
+			kv := strings.Split(it, "=")
+			if len(kv) != 2 {
+				return "bad-op"
+			}
+			id, ver := tok(kv[0]), tok(kv[1])
+			if _, dup := m[id]; dup {
+				return "bad-op" // a Go map has every identifier once
+			}
+			m[id] = ver
+		}
+		if a {
+			for id, ver := range m {
+				if sv, err := semver.NewVersion(ver); err == nil {
+					touchFile(filepath.Join(e.dir, filepath.FromSlash(refVersionedPath(id, sv.String()))))
+				}
+			}
+		}
+		// the returned "last error" depends on the map iteration order: not observed
+		_ = e.reg.AddResources(m, idx, a, c, p)
 		return "ok"
 	case f[0] == "touch" && len(f) == 4:
 		id, ver := tok(f[1]), tok(f[2])
@@ -465,7 +521,10 @@ func newest(vs []mVer, p func(mVer) bool) (best []string) {
 // prescribed is the documented order, written as a choice over the set of versions (no sorting involved):
 // dev version if dev mode and locally available; else the current release if selectable; else, with
 // pre-releases enabled, the newest selectable; else the newest selectable stable; else the newest.
-func prescribed(r *mRes, fl regFlags) (want []string, step string) {
+// "The current release" is cur: the version most recently announced as such for this resource, which the monitor
+// knows from the calls of the history (curTruth) — never from the CurrentRelease flags of the implementation
+// ("" = the resource has no current release).
+func prescribed(r *mRes, fl regFlags, cur string) (want []string, step string) {
 	if len(r.vs) == 0 {
 		return []string{"-"}, "empty"
 	}
@@ -474,9 +533,11 @@ func prescribed(r *mRes, fl regFlags) (want []string, step string) {
 			return w, "dev"
 		}
 	}
-	if curs := newest(r.vs, func(v mVer) bool { return v.cur }); len(curs) > 0 {
-		if w := newest(r.vs, func(v mVer) bool { return v.cur && v.num == curs[0] && v.selectable(fl, r.idx) }); len(w) > 0 {
-			return w, "current"
+	if cur != "" {
+		for _, v := range r.vs {
+			if v.num == cur && v.selectable(fl, r.idx) {
+				return []string{cur}, "current"
+			}
 		}
 	}
 	if fl.usePre {
@@ -488,6 +549,66 @@ func prescribed(r *mRes, fl regFlags) (want []string, step string) {
 		return w, "newest-stable"
 	}
 	return newest(r.vs, func(mVer) bool { return true }), "fallback"
+}
+
+// curTruth is the monitor's own record of "the current release" of every resource: the version named by the last
+// AddResource / AddResources / AddVersion call with currentRelease=true for the resource, taken from the op lines of the
+// history (and their outcome), never from the implementation's flags. Where the property does not say which version is
+// the current release, every reading is kept (opts has more than one element; "" = no current release):
+//   - the announcement failed (the version does not parse): the previous current release stays, or there is none;
+//   - a Purge dropped the announced version from the resource: the resource may have forgotten it for good, or it is
+//     the current release again when the version is listed again.
+// opts[0] is the literal reading "most recently announced".
+type curTruth map[string][]string
+
+func (t curTruth) of(id string) []string {
+	if o := t[id]; len(o) > 0 {
+		return o
+	}
+	return []string{""}
+}
+
+func (t curTruth) also(id, alt string) {
+	o := t.of(id)
+	if !in(alt, o) {
+		o = append(append([]string{}, o...), alt)
+	}
+	t[id] = o
+}
+
+// announce records one AddVersion(version, currentRelease=true) for id with its outcome.
+func (t curTruth) announce(id, ver, out string) {
+	switch {
+	case out == "ok":
+		if sv, err := semver.NewVersion(ver); err == nil {
+			t[id] = []string{sv.String()}
+			count("current-release:announced")
+			return
+		}
+		t.also(id, "") // cannot happen: accepted by the implementation, rejected by go-version here
+	case out == "err parse":
+		t.also(id, "")
+		count("current-release:announcement-failed")
+	}
+}
+
+// forgetUnlisted: a version that is not (no longer) listed may have been forgotten as the current release.
+func (t curTruth) forgetUnlisted(st *mState) {
+	for id, opts := range t {
+		r := st.res[id]
+		for _, o := range opts {
+			listed := false
+			if r != nil {
+				for _, v := range r.vs {
+					listed = listed || v.num == o
+				}
+			}
+			if o != "" && !listed && !in("", t.of(id)) {
+				t.also(id, "")
+				count("current-release:dropped-by-purge")
+			}
+		}
+	}
 }
 
 func in(x string, l []string) bool {
@@ -537,6 +658,7 @@ func monitor(c hxlib.Case, outs []string) (vs []hxlib.Violation) {
 		vs = append(vs, hxlib.Violation{Sig: sig, What: what, Lines: c.Lines[lo : i+1], Output: outs[lo : i+1]})
 	}
 	fl := regFlags{}
+	truth := curTruth{}
 	var prev *mState // state before the current op (from the last dump)
 	prevOp := -1     // index of the last non-dump op
 	for i, l := range c.Lines {
@@ -555,6 +677,26 @@ func monitor(c hxlib.Case, outs []string) (vs []hxlib.Violation) {
 				fl.online, _ = b01(f[1])
 				fl.dev, _ = b01(f[2])
 				fl.usePre, _ = b01(f[3])
+			}
+		case "add":
+			if len(f) == 7 && f[4] == "1" {
+				truth.announce(tok(f[1]), tok(f[2]), o)
+			}
+		case "addv":
+			if len(f) == 6 && f[4] == "1" {
+				truth.announce(tok(f[1]), tok(f[2]), o) // "err notfound": no resource, nothing announced
+			}
+		case "addmany":
+			if len(f) >= 5 && f[2] == "1" && o == "ok" {
+				for _, it := range f[5:] {
+					if kv := strings.Split(it, "="); len(kv) == 2 {
+						out := "ok"
+						if _, err := semver.NewVersion(tok(kv[1])); err != nil {
+							out = "err parse"
+						}
+						truth.announce(tok(kv[0]), tok(kv[1]), out)
+					}
+				}
 			}
 		case "rt":
 			// (identifier, version) -> file name -> (identifier, version), documented format only
@@ -591,8 +733,9 @@ func monitor(c hxlib.Case, outs []string) (vs []hxlib.Violation) {
 				add(i, "C19:dump-unparsable", "harness dump could not be parsed: "+o)
 				return vs
 			}
+			truth.forgetUnlisted(cur)
 			if prevOp >= 0 {
-				vs = append(vs, checkOp(c, outs, prevOp, i, prev, cur, fl)...)
+				vs = append(vs, checkOp(c, outs, prevOp, i, prev, cur, fl, truth)...)
 			}
 			prev = cur
 			prevOp = -1
@@ -611,7 +754,7 @@ func splitPath(p string) (string, string) {
 }
 
 // checkOp judges op k (with the state dumps before and after it) against the property statement.
-func checkOp(c hxlib.Case, outs []string, k, at int, before, after *mState, fl regFlags) (vs []hxlib.Violation) {
+func checkOp(c hxlib.Case, outs []string, k, at int, before, after *mState, fl regFlags, truth curTruth) (vs []hxlib.Violation) {
 	add := func(sig, what string) {
 		vs = append(vs, hxlib.Violation{Sig: sig, What: what, Lines: c.Lines[:at+1], Output: outs[:at+1]})
 	}
@@ -621,19 +764,38 @@ func checkOp(c hxlib.Case, outs []string, k, at int, before, after *mState, fl r
 	f := strings.Fields(c.Lines[k])
 	o := outs[k]
 	checkSel := func(r *mRes, why string) {
-		want, step := prescribed(r, fl)
-		count("select-step:" + step)
-		if !in(strings.TrimSuffix(r.sel, "!ghost"), want) {
-			add("C19:selection:"+step, fmt.Sprintf("%s: resource %s flags %+v idx=%s versions %v: selected %s, the documented order prescribes %v (step %s)",
-				why, r.id, fl, r.idx, verList(r), r.sel, want, step))
-		}
-		// outside dev mode a blacklisted version is selected only as that last resort ("else the newest version")
+		sel := strings.TrimSuffix(r.sel, "!ghost")
+		isBl := false
 		for _, v := range r.vs {
-			if v.num == r.sel && v.bl && !fl.dev && step != "fallback" {
-				add("C19:blacklisted-selected", fmt.Sprintf("resource %s flags %+v idx=%s versions %v: blacklisted %s selected although step %q of the documented order applies",
-					r.id, fl, r.idx, verList(r), r.sel, step))
-				break
+			isBl = isBl || (v.num == sel && v.bl)
+		}
+		curs := truth.of(r.id)
+		if len(curs) > 1 {
+			count("current-release:more-than-one-reading")
+		}
+		// every reading of "the current release" the property leaves open is accepted; the report is about the literal one
+		okSel, okBl := false, false
+		for _, cur := range curs {
+			want, step := prescribed(r, fl, cur)
+			if in(sel, want) {
+				okSel = true
+				// outside dev mode a blacklisted version is selected only as that last resort ("else the newest version")
+				okBl = okBl || !isBl || fl.dev || step == "fallback"
 			}
+		}
+		want, step := prescribed(r, fl, curs[0])
+		count("select-step:" + step)
+		curTxt := curs[0]
+		if curTxt == "" {
+			curTxt = "none"
+		}
+		switch {
+		case !okSel:
+			add("C19:selection:"+step, fmt.Sprintf("%s: resource %s flags %+v idx=%s versions %v, current release (last announced) %s: selected %s, the documented order prescribes %v (step %s)",
+				why, r.id, fl, r.idx, verList(r), curTxt, r.sel, want, step))
+		case !okBl:
+			add("C19:blacklisted-selected", fmt.Sprintf("resource %s flags %+v idx=%s versions %v, current release (last announced) %s: blacklisted %s selected although step %q of the documented order applies",
+				r.id, fl, r.idx, verList(r), curTxt, r.sel, step))
 		}
 	}
 	switch f[0] {
